@@ -248,3 +248,120 @@ var vC12Printed = []string{
 }
 
 func vh_C12_offsets() { vOffsets("offsets", vC12Printed, false) }
+
+// vh_C12_widelits: literals next to the 64-bit limits denote their exact
+// mathematical value or are rejected - never a wrapped one.  Hex (16 digits),
+// octal (22 digits) and binary (64 digits) literals with symbolic leading
+// digits, and decimal boundary spellings (2^63-1, 2^63, 2^64-1, 2^64, with
+// and without the ULL suffix and the sign).
+func vh_C12_widelits() {
+	env := vEnvs(1)[0]
+	var txt string
+	var mag uint64    // magnitude of the mathematical value when it fits 64 bits
+	overflow := false // the magnitude needs more than 64 bits
+	neg := false
+	ull := false
+	hexd := func(d uint8) byte {
+		if d < 10 {
+			return '0' + d
+		}
+		return 'a' + d - 10
+	}
+	switch vChoice("kind", 4) {
+	case 0: // 0x + 16 hex digits: two leading and the last one symbolic
+		d1, d2, d3 := vUint8("d1"), vUint8("d2"), vUint8("d3")
+		vAssume(d1 < 16 && d2 < 16 && d3 < 16)
+		fill := []byte{'0', 'f', '8'}[vChoice("fill", 3)]
+		b := []byte{'0', 'x', hexd(d1), hexd(d2)}
+		var fv uint64
+		switch fill {
+		case 'f':
+			fv = 15
+		case '8':
+			fv = 8
+		}
+		mag = uint64(d1)<<60 | uint64(d2)<<56
+		for i := 0; i < 13; i++ {
+			b = append(b, fill)
+			mag |= fv << uint(52-4*i)
+		}
+		b = append(b, hexd(d3))
+		mag |= uint64(d3)
+		txt = string(b)
+	case 1: // 0o + 22 octal digits: the leading one symbolic (2 and up exceed 64 bits)
+		d1 := vUint8("d1")
+		vAssume(d1 < 8)
+		fill := []byte{'0', '7'}[vChoice("fill", 2)]
+		b := []byte{'0', 'o', '0' + d1}
+		overflow = d1 >= 2
+		mag = uint64(d1) << 63
+		for i := 0; i < 21; i++ {
+			b = append(b, fill)
+			if fill == '7' {
+				mag |= 7 << uint(60-3*i)
+			}
+		}
+		txt = string(b)
+	case 2: // 0b + 64 binary digits: the two leading and the last one symbolic
+		d1, d2, d3 := vUint8("d1"), vUint8("d2"), vUint8("d3")
+		vAssume(d1 < 2 && d2 < 2 && d3 < 2)
+		fill := []byte{'0', '1'}[vChoice("fill", 2)]
+		b := []byte{'0', 'b', '0' + d1, '0' + d2}
+		mag = uint64(d1)<<63 | uint64(d2)<<62 | uint64(d3)
+		for i := 0; i < 61; i++ {
+			b = append(b, fill)
+			if fill == '1' {
+				mag |= 1 << uint(61-i)
+			}
+		}
+		b = append(b, '0'+d3)
+		txt = string(b)
+	default: // decimal boundary spellings
+		dec := []struct {
+			t        string
+			mag      uint64
+			overflow bool
+			neg, ull bool
+		}{
+			{"9223372036854775807", 1<<63 - 1, false, false, false},
+			{"9223372036854775808", 1 << 63, false, false, false},
+			{"-9223372036854775808", 1 << 63, false, true, false},
+			{"-9223372036854775809", 1<<63 + 1, false, true, false},
+			{"18446744073709551615", 1<<64 - 1, false, false, false},
+			{"18446744073709551616", 0, true, false, false},
+			{"9223372036854775808ULL", 1 << 63, false, false, true},
+			{"18446744073709551615ULL", 1<<64 - 1, false, false, true},
+			{"18446744073709551616ULL", 0, true, false, true},
+			{"9_223_372_036_854_775_807", 1<<63 - 1, false, false, false},
+		}[vChoice("dec", 10)]
+		txt, mag, overflow, neg, ull = dec.t, dec.mag, dec.overflow, dec.neg, dec.ull
+	}
+	back, ok := vReadOne(env, txt)
+	fitsInt := !overflow && ((!neg && mag < 1<<63) || (neg && mag <= 1<<63))
+	if fitsInt && !ull {
+		vAssert(ok, "literal-that-fits-int64-is-readable")
+	}
+	if ull && !overflow {
+		vAssert(ok, "uint64-literal-is-readable")
+	}
+	if !ok {
+		vReach("wide-rejected")
+		return
+	}
+	switch b := back.(type) {
+	case *SexpInt:
+		want := int64(mag)
+		if neg {
+			want = -int64(mag)
+		}
+		vAssert(fitsInt && b.Val == want, "wide-literal-exact-value-or-rejected")
+	case *SexpUint64:
+		vAssert(!overflow && !neg && b.Val == mag, "wide-literal-exact-value-or-rejected")
+	case *SexpFloat:
+		// a decimal too large for an integer may be read as a float: the nearest one
+		vAssert(!ull && b.Val == float64(mag) && !overflow || overflow, "wide-literal-float-is-nearest")
+	default:
+		vAssert(false, "wide-literal-is-a-number")
+	}
+	vReach("wide")
+}
